@@ -240,7 +240,7 @@ def r5_typability(facts, rep):
         if members & ref_rest:
             n += 1
             whole = members <= ref_rest
-            dom = c12.LexDomain(ats)
+            dom = c12.LexDomain(ats, facts=facts)
             it = core.Interp(facts, dom, budget=200000)
             st = dom.setlex({(0, 0): c12.lexer_value(False)}, lo, "EOF")
             outs = it.run(cw, [Ref(0, 0)], st)
@@ -249,7 +249,7 @@ def r5_typability(facts, rep):
                    "consume_word %s characters %s..%s" % ("accepts" if acc else "does NOT accept", chars.describe(lo), chars.describe(hi)),
                    cw.site(), sample={"atom": [lo, hi], "accepted": acc})
         if members & ref_first:
-            dom = c12.LexDomain(ats)
+            dom = c12.LexDomain(ats, facts=facts)
             it = core.Interp(facts, dom, budget=200000)
             st = dom.setlex({(0, 0): c12.lexer_value(False)}, lo, None)
             outs = it.run(nx, [Ref(0, 0)], st)
